@@ -3,7 +3,9 @@ nodes of two contents sets M (trie A) and M2 (an independent view B / an older r
 chosen by symbolic indices, is applied to A directly or inside squash_changes while the f-th database
 write fails (f symbolic, decided by the solver at each write the run reaches).
 
-cfg: {"mi", "mi2", "tier", "kpool", "vpool", "seed", "mode": "direct"|"batch"}
+cfg: {"mi", "mi2", "tier", "kpool", "vpool", "seed", "mode": "direct"|"batch"|"batch2"|"batch_recreate"}
+  batch2: a committed batch precedes the measured batch on the same trie object;
+  batch_recreate: the measured batch first re-creates B's contents (nodes byte-identical to entries already in the db)
 """
 from vf import stubs
 from vf.oracle import mpt
@@ -100,11 +102,42 @@ def _body(kind, ki, vi, fail_at):
         m2.pop(key, None)
     else:
         m2[key] = val
+    mode = CFG["mode"]
+    if mode == "batch_recreate":
+        m2 = dict(MODEL)
+        m2.update(MODEL2)
+        if kind >= 2 or val == b"":
+            m2.pop(key, None)
+        else:
+            m2[key] = val
+    roots = [(rootA, MODEL, "old root of A"), (rootB, MODEL2, "root of the other trie B")]
+    if mode == "batch2":
+        # an earlier, committed batch on the same trie object (fault free), then the measured batch
+        k0 = KEYS[(ki + 1) % len(KEYS)]
+        with tA.squash_changes() as b0:
+            b0.set(k0, hc.LONG_B)
+        m1 = dict(MODEL)
+        m1[k0] = hc.LONG_B
+        roots.append((tA.root_hash, m1, "root of A after its first batch"))
+        before = dict(db)
+        m2 = dict(m1)
+        if kind >= 2 or val == b"":
+            m2.pop(key, None)
+        else:
+            m2[key] = val
+    cur_before = (tA.root_hash, roots[-1][1] if mode == "batch2" else MODEL)
     db.arm(fail_at)
     failed = False
     try:
-        if CFG["mode"] == "batch":
+        if mode in ("batch", "batch2"):
             with tA.squash_changes() as b:
+                hexstep._apply(b, kind, key, val)
+        elif mode == "batch_recreate":
+            # the batch first writes B's contents into A (byte-identical nodes to those B already has in the shared
+            # database), then performs the measured operation
+            with tA.squash_changes() as b:
+                for kk, vv in sorted(MODEL2.items()):
+                    b.set(kk, vv)
                 hexstep._apply(b, kind, key, val)
         else:
             hexstep._apply(tA, kind, key, val)
@@ -121,7 +154,7 @@ def _body(kind, ki, vi, fail_at):
         if k not in before and mpt.keccak(v) != k:
             return _fail(f"new database entry {k.hex()[:12]} is not keyed by the keccak of its value")
     # (ii) every root ever had stays readable with exactly its contents: from fresh tries, at_root, and the other view
-    for root, model, name in ((rootA, MODEL, "old root of A"), (rootB, MODEL2, "root of the other trie B")):
+    for root, model, name in roots:
         r = _reads(HexaryTrie(db, root), model, name + " via a freshly opened trie")
         if r:
             return _fail(r)
@@ -135,8 +168,8 @@ def _body(kind, ki, vi, fail_at):
     # (iii) the current root is a root with fully readable contents: the new one, or after a failed write the old one
     if failed:
         COUNTERS["write_failures_fired"] += 1
-        if tA.root_hash == rootA:
-            cur = MODEL
+        if tA.root_hash == cur_before[0]:
+            cur = cur_before[1]
         elif tA.root_hash == mpt.root_of(m2):
             cur = m2
         else:
@@ -149,6 +182,11 @@ def _body(kind, ki, vi, fail_at):
             hexstep._apply(tA, kind, key, val)
         except Exception as e:
             return _fail(f"repeating the operation after a failed write raised {type(e).__name__}: {e}")
+        m2 = dict(cur)
+        if kind >= 2 or val == b"":
+            m2.pop(key, None)
+        else:
+            m2[key] = val
     r = _reads(tA, m2, "trie A after the operation")
     if r:
         return _fail(r)
